@@ -606,7 +606,7 @@ func (w *world) advanceTo(target time.Time, why string) {
 
 func TestTimeline(t *testing.T) {
 	name := t.Name()
-	hx.Check(t, 2400, 60000, 0, func(rt *rapid.T) {
+	hx.Check(t, 8000, 400000, 0, func(rt *rapid.T) {
 		spec := drawTimeline(rt)
 		w := &world{rt: rt, adverts: map[string]*advert{}, labels: map[string]bool{}}
 		var offCls string
